@@ -347,20 +347,30 @@ Qed.
 
 Local Open Scope R_scope.
 
+(* the generated field expressions are arithmetic over the constants 0, 1, 2, 1/2, n/d: the proofs
+   below only use their values, so an algebraically equivalent rewrite of the Go text still passes *)
+Ltac rconst := cbn; unfold cst, half, two; cbn.
+
 Lemma radius_is_half_diameter : forall f n (a b c : R), Radius (@apply_add ROps f n a b c) = a / 2.
-Proof. intros [] n a b c; cbn; unfold cst; cbn; lra. Qed.
+Proof. intros [] n a b c; rconst; lra. Qed.
 
 Lemma pitch_is_inverse_tpi : forall f n (a b c : R), f <> ISOAdd_row -> Pitch (@apply_add ROps f n a b c) = 1 / b.
-Proof. intros [] n a b c Hf; try contradiction; cbn; unfold cst; cbn; unfold Rdiv; rewrite Rinv_1; lra. Qed.
+Proof.
+  intros [] n a b c Hf; try contradiction; rconst; unfold Rdiv; try rewrite Rinv_1; try lra;
+    destruct (Req_dec b 0) as [-> | Hb]; try (rewrite Rinv_0; lra); field; exact Hb.
+Qed.
 
 Lemma iso_pitch_is_pitch : forall n (a b c : R), Pitch (@apply_add ROps ISOAdd_row n a b c) = b.
-Proof. reflexivity. Qed.
+Proof. intros; rconst; lra. Qed.
 
 Lemma npt_taper_is_1_in_32 : forall n (a b c : R), tan (Taper (@apply_add ROps NPTAdd_row n a b c)) = 1 / 32.
-Proof. intros. cbn. unfold cst; cbn. apply tan_atan. Qed.
+Proof.
+  intros. rconst.
+  match goal with |- tan (atan ?x) = _ => rewrite (tan_atan x) end. lra.
+Qed.
 
 Lemma straight_taper_zero : forall f n (a b c : R), f <> NPTAdd_row -> Taper (@apply_add ROps f n a b c) = 0.
-Proof. intros [] n a b c Hf; try contradiction; reflexivity. Qed.
+Proof. intros [] n a b c Hf; try contradiction; rconst; lra. Qed.
 
 Lemma add_units : forall f n (a b c : R),
   Units (@apply_add ROps f n a b c) = match f with ISOAdd_row => "mm"%string | _ => "inch"%string end.
@@ -375,15 +385,15 @@ Lemma to_mm_scales : forall t : ThreadParameters ROps, Units t <> "mm"%string ->
 Proof.
   intros t Hu. unfold ToMillimetre. destruct (String.eqb (Units t) "mm") eqn:E.
   - apply String.eqb_eq in E. contradiction.
-  - cbn. unfold cst; cbn. repeat split; lra.
+  - rconst. repeat split; lra.
 Qed.
 
 Lemma to_mm_keeps_mm : forall (O : Ops) (t : ThreadParameters O), Units t = "mm"%string -> ToMillimetre t = t.
-Proof. intros O t Hu. unfold ToMillimetre. rewrite Hu. reflexivity. Qed.
+Proof. intros O t Hu. unfold ToMillimetre. destruct t; cbn in Hu |- *; subst; reflexivity. Qed.
 
 Lemma to_mm_units : forall (O : Ops) (t : ThreadParameters O), Units (ToMillimetre t) = "mm"%string.
 Proof.
-  intros O t. unfold ToMillimetre. destruct (String.eqb (Units t) "mm") eqn:E.
+  intros O t. unfold ToMillimetre. destruct (String.eqb (Units t) "mm") eqn:E; cbn.
   - apply String.eqb_eq. exact E.
   - reflexivity.
 Qed.
